@@ -98,12 +98,14 @@ func (P *Prog) verifyFunc(key string, c11 bool) (res *FuncResult) {
 				fr.cbSpecs[p.Name()] = cb
 			}
 		}
+		_ = 0
 	}
 	for _, fv := range fn.FreeVars {
 		fr.free = append(fr.free, x.freshValue(fv.Type(), fv.Name(), st))
 	}
 	x.entry = st.clone()
 	x.ghostInputs(st)
+	x.addElemInputs(fr, st, fn)
 	env := x.newEnv(fr, st, fn.Blocks[0])
 	if spec != nil {
 		for _, c := range spec.Requires {
